@@ -11,3 +11,16 @@ func cdbHash() hash.Hash32 {
 	d := spooky.New(0, 0)
 	return d
 }
+
+// hashKey computes the hash the writer stored for key. The writer feeds keys
+// through the streaming hasher, whose result differs from the one-shot
+// spooky.Hash32 for keys of 96 to 191 bytes; below one block (96 bytes) both
+// agree, so short keys keep the allocation-free call.
+func hashKey(key []byte) uint32 {
+	if len(key) < 96 {
+		return spooky.Hash32(key)
+	}
+	d := cdbHash()
+	_, _ = d.Write(key)
+	return d.Sum32()
+}
